@@ -17,7 +17,6 @@ Provides class for analyzing complex network embedded on a spherical surface.
 """
 
 import numpy as np
-import igraph
 
 from .spatial_network import SpatialNetwork
 from .geo_grid import GeoGrid
@@ -167,8 +166,8 @@ class GeoNetwork(SpatialNetwork):
         print(grid.__class__)
 
         #  Load to igraph Graph object
-        graph = igraph.Graph.Read(f=filename_network, format=fileformat,
-                                  *args, **kwds)
+        graph = GeoNetwork._read_graph(filename_network, fileformat,
+                                       *args, **kwds)
 
         #  Extract adjacency matrix
         A = np.array(graph.get_adjacency(type=2).data)
